@@ -1581,17 +1581,21 @@ func (c *CAManager) SignCertificate(csr *x509.CertificateRequest, spiffeID conne
 		// so they will have a dummy trust domain in the CSR.
 		trustDomain := signingID.Host()
 		if agentID.Host != trustDomain {
-			originalURI := agentID.URI()
+			originalID := *agentID
 
 			agentID.Host = trustDomain
 
-			// recreate the URIs list
+			// recreate the URIs list. The URI to replace is found by the
+			// identity it parses to, not by its spelling: an escaped
+			// character, a partition element or a query string in the CSR
+			// must not let the original trust domain through.
 			uris := make([]*url.URL, len(csr.URIs))
 			for i, uri := range csr.URIs {
-				if originalURI.String() == uri.String() {
-					uris[i] = agentID.URI()
-				} else {
-					uris[i] = uri
+				uris[i] = uri
+				if parsed, err := connect.ParseCertURI(uri); err == nil {
+					if parsedID, ok := parsed.(*connect.SpiffeIDAgent); ok && *parsedID == originalID {
+						uris[i] = agentID.URI()
+					}
 				}
 			}
 
@@ -1601,6 +1605,18 @@ func (c *CAManager) SignCertificate(csr *x509.CertificateRequest, spiffeID conne
 
 	default:
 		return nil, connect.InvalidCSRError("SPIFFE ID in CSR must be a service, agent, server, or mesh gateway ID")
+	}
+
+	// The certificate will carry each URI the way net/url re-serializes it,
+	// which is not always the spelling that was parsed above (a path that is
+	// not a canonical encoding is re-escaped from its decoded form, so %2F
+	// becomes a path separator). Refuse to sign unless a verifier that parses
+	// the SAN reads exactly the identity that was authorized.
+	for _, uri := range csr.URIs {
+		encodedID, err := connect.ParseCertURIFromString(uri.String())
+		if err != nil || !reflect.DeepEqual(encodedID, spiffeID) {
+			return nil, connect.InvalidCSRError("SPIFFE ID in CSR is not in its canonical encoding: %s", uri.String())
+		}
 	}
 
 	commonCfg, err := config.GetCommonConfig()
